@@ -152,6 +152,9 @@ def judge_call(ctx, env, path, status, sense, raw, outcome, exc, cmd, extra):
         ctx.fail(base + ".check_condition_is_also_a_status_error", "the CheckCondition is also an instance of a status exception class (%s)" % name, wit, exc=exc)
 
 
+FLAGS = [0]
+
+
 def execute(env, cmd, raw, via=None):
     """returns (outcome, exc); via='scsi' uses the generic SCSI.execute(cmd) of a facade"""
     try:
@@ -159,12 +162,24 @@ def execute(env, cmd, raw, via=None):
             from vmon import harness
 
             s = harness.make_facade(env.dev)
+            FLAGS[0] += 1
             if raw:
-                s.execute(cmd, en_raw_sense=True)
+                s.execute(cmd, en_raw_sense=(True, 1, "raw")[FLAGS[0] % 3])
+            elif FLAGS[0] % 3 == 0:
+                s.execute(cmd, en_raw_sense=(0, None, "")[(FLAGS[0] // 3) % 3])
             else:
                 s.execute(cmd)
         elif via is None:
-            env.dev.execute(cmd, en_raw_sense=raw)
+            # the flag is a truth value: whatever is false asks for the exception, whatever is true for the raw sense; given by
+            # keyword or by position
+            FLAGS[0] += 1
+            from vmon import harness as _h
+
+            flag = ((True, 1, "raw", 2, _h.IntSub(1)) if raw else (False, 0, None, "", _h.IntSub(0), 0.0))[FLAGS[0] % (5 if raw else 6)]
+            if FLAGS[0] % 2:
+                env.dev.execute(cmd, en_raw_sense=flag)
+            else:
+                env.dev.execute(cmd, flag)
         else:
             via()
         return "returned", None
@@ -310,12 +325,16 @@ def run_sequences(shard, ctx, env, rng):
         env.static_sense = bytearray(252) if s % 3 == 1 else None
         kept = None  # (exception, values, text) of the previous CHECK CONDITION
         deferred = []  # errors the application only collects: first looked at when the whole batch is over
+        raw_kept = []  # commands that returned with raw sense: (command, its raw sense then, position)
         for pos, (status, reuse, raw) in enumerate(steps):
             if status == 2 and rng.random() < 0.3:
                 # UNIT ATTENTION / POWER ON, RESET: typically seen (repeatedly) after a re-plug
                 sense = ref_build_ua(env)
             else:
                 sense = env.unique_sense(rng) if status == 2 else None
+            if status == 2 and raw and t == "sgio" and rng.random() < 0.15:
+                sense = b""  # CHECK CONDITION without sense data (autosense failed): a zero-length sense is still "failed"
+                ctx.count("check_conditions_with_empty_sense")
             env.plan = [(status, sense)]
             if env.node is not None and rng.random() < 0.15:
                 from vmon.sim import devnode
@@ -357,8 +376,16 @@ def run_sequences(shard, ctx, env, rng):
                 except Exception:  # noqa: BLE001
                     kept = None
             nontriv = nontriv or status != 0
+            raw_kept = [x for x in raw_kept if x[0] is not cmd]  # executed again: its raw sense is that of the new execution
+            if status == 2 and raw and getattr(cmd, "raw_sense_data", None) is not None and env.static_sense is None:
+                raw_kept.append((cmd, bytes(cmd.raw_sense_data), pos))
             judge_call(ctx, env, "sequence", status, sense, raw, outcome, exc, cmd,
                        {"position": pos, "reused_command_object": bool(reuse), "history": hist[-6:]})
+        for r_cmd, r_was, r_pos in raw_kept:
+            ctx.count("raw_sense_rechecked_after_later_commands")
+            if r_cmd.raw_sense_data is None or bytes(r_cmd.raw_sense_data) != r_was:
+                ctx.fail("C07:%s.sequence.raw_sense_of_earlier_command_changed" % t, "the raw sense attached to command %d reads %r after later commands ran, it was %r"
+                         % (r_pos, bytes(r_cmd.raw_sense_data)[:18] if r_cmd.raw_sense_data is not None else None, r_was[:18]), {"history": hist[-6:], "position": r_pos})
         for d_exc, d_sense, d_pos in deferred:
             from vmon.spec import sense as _ref
 
